@@ -1,2 +1,8 @@
 import CnlProofs.Wide
 import CnlProofs.Fraction
+import CnlProofs.Bits
+import CnlProofs.Charconv
+import CnlProofs.Sqrt
+import CnlProofs.Rounding
+import CnlProofs.Parse
+import CnlProofs.MakeFraction
